@@ -169,8 +169,10 @@ def classify(rec, method):
     if st == "rejected":
         msg = rec.get("detail") or ""
         m = re.search(r"possible lossy conversion from (\w+) to (\w+)", msg)
-        if m and m.group(2) in NARROW and m.group(1) in ("int",) + NARROW and \
-                feats & {"int-to-byte", "int-to-short", "int-to-char"}:
+        narrowing = bool(feats & {"int-to-byte", "int-to-short", "int-to-char"}) or any(
+            isinstance(it, (tuple, list)) and it and it[0] in ("int-to-byte", "int-to-short", "int-to-char")
+            for it in method.get("items", ()))    # (the feature 'char-vs-const' emits an int-to-char without naming it)
+        if m and m.group(2) in NARROW and m.group(1) in ("int",) + NARROW and narrowing:
             return "declared-type-of-another-definition"
         if re.search(r"[(,\s](int|long|byte|short|char) v\d+(_\d+)?\s*[,)\-+*/%&|^<>]", src) and \
                 ("expected" in msg or "not a statement" in msg or "illegal start" in msg):
@@ -789,13 +791,16 @@ def run(ck: Check):
                     "as its position needs); trees outside WF (a bare comparison as an operand, `a cmp b` of float compares) are "
                     "printed by the Writer as text that means something else or is not Java - DAD's own pipeline only builds "
                     "comparisons at the top of a condition. Statement-level text (assignments, declarations, conditions joined by "
-                    "&& / ||, control structure) is not covered by print_parse")
+                    "&& / ||, control structure) is not covered by print_parse. That the trees the real pipeline builds are well formed is not "
+                    "a theorem (no model of the passes); it is checked on every expression tree of ~300 decompiled generated methods "
+                    "per quick run (stream 'expression trees of decompiled methods')")
     workdir = tempfile.mkdtemp(prefix="c21-")
     try:
         drv = Driver("drv_C21")
         leg_t(ck, drv, workdir)
         leg_t_contexts(ck, drv, workdir, full=not ck.quick, escalated=getattr(ck, "escalated", False))
         c21_jexpr.leg(ck, drv, 2500 if ck.quick and not getattr(ck, "escalated", False) else 40000, workdir)
+        c21_jexpr.leg_pipeline(ck, drv, workdir, 300 if ck.quick and not getattr(ck, "escalated", False) else 3000)
         leg_s(ck, workdir)
     except javagen.BenchTimeout as e:
         raise ToolFailure("timeout in " + str(e))
